@@ -37,12 +37,16 @@ type c17Scn struct {
 	name   string
 	setup  func(ctx context.Context) []func()
 	settle int64 // virtual time to let constructors' own goroutines finish before the actors start
+	// deviation: scenarios with many goroutines (the whole controller) use the deviation cost model, under
+	// which every non-default scheduling choice costs 1 (preemption bounding explodes beyond ~4 goroutines)
+	deviation bool
+	tail      int64 // virtual time to keep running after the actors have been started (default one hour)
 }
 
 func c17Wrap(sc c17Scn, tier string) hx.Unit {
 	done := new(int)
 	total := new(int)
-	u := hx.Unit{Name: "C17/" + sc.name, Cfg: mc.Config{Horizon: int64(2 * time.Hour)}, Race: true}
+	u := hx.Unit{Name: "C17/" + sc.name, Cfg: mc.Config{Horizon: int64(2 * time.Hour), Deviation: sc.deviation}, Race: true}
 	u.Bound = 1
 	if tier == "thorough" {
 		u.Bound = 2
@@ -63,7 +67,11 @@ func c17Wrap(sc c17Scn, tier string) hx.Unit {
 				c17Done(done)
 			})
 		}
-		mc.Sleep(int64(time.Hour))
+		if sc.tail > 0 {
+			mc.Sleep(sc.tail)
+		} else {
+			mc.Sleep(int64(time.Hour))
+		}
 	}
 	u.Check = func(r *mc.Result) mc.Verdict {
 		if c17Watcher == nil {
